@@ -32,7 +32,9 @@ EXT_MODULES = ["biotite.sequence.phylo.tree", "biotite.sequence.phylo.upgma", "b
 GEN_FILES = ["BiotiteModel/Gen/C19.lean"]
 RULE = ("seeded symmetric distance matrices (n=2..12, small integers so ties are frequent; exact stream scaled so "
         "that every float32 mean/half is exact; additive matrices from random trees for NJ; float stream with "
-        "tolerance; malformed: asymmetric, negative, NaN/inf, too small) through upgma/neighbor_joining, and seeded "
+        "tolerance; three large comb matrices n=258..400 that push one cluster past 256 members, oracle only; input "
+        "array must stay bit-identical and a second call must agree; malformed: asymmetric, negative, NaN/inf, too "
+        "small) through upgma/neighbor_joining, and seeded "
         "rooted trees of any arity (incl. one-child nodes) with dyadic branch lengths and random unicode labels "
         "through to_newick/from_newick (with injected whitespace, with/without distances, plus mutated strings), "
         "get_distance/distance_to/lowest_common_ancestor, as_binary and copy; op by op against the Lean model. "
@@ -352,6 +354,11 @@ def cases(rng, tier):
         L = _lcm_products(n)
         m = [[x * L for x in row] for row in _sym_matrix(rng, n, hi)]
         yield _matrix_case("upgma", "upgma", m, True)
+    # ---------------- large UPGMA (oracle only): one cluster grows by single additions past 256 members while
+    # an outlier's distances force a genuinely size-weighted mean (all means are integers => float32 exact)
+    for n_big in ([258, 300, 400] if quick else [258, 259, 300, 320, 400, 400]):
+        yield {"kind": "upgma_large", "algo": "upgma", "exact": True,
+               "big": {"m": n_big - 1, "base": rng.choice([1000, 1500]), "seed": rng.randint(0, 10**9)}}
     # ---------------- NJ exact stream: scaled integer matrices and additive matrices of random trees
     for _ in range(70 if quick else 1000):
         n = rng.choice([4, 4, 5, 5, 6, 7, 8])
@@ -648,12 +655,91 @@ def _close(a, b, tol):
     return a == b if tol == 0 else abs(float(a) - float(b)) <= tol
 
 
+def _big_matrix(spec):
+    """Comb matrix on m taxa (D[i][j] = max(i,j)) plus one outlier z whose distance to member t is chosen so
+    that the running mean over members 0..t is the integer A_t; indices shuffled by a seeded permutation."""
+    import random as _r
+    rr = _r.Random(spec["seed"])
+    m, base = spec["m"], spec["base"]
+    n = m + 1
+    D = [[0] * n for _ in range(n)]
+    for i in range(m):
+        for j in range(i):
+            D[i][j] = D[j][i] = i
+    a_prev = base
+    D[0][m] = D[m][0] = base
+    for t in range(1, m):
+        k = rr.choice([0, 1, 2])
+        D[t][m] = D[m][t] = a_prev + (t + 1) * k
+        a_prev += k
+    perm = list(range(n))
+    rr.shuffle(perm)
+    P = [[0] * n for _ in range(n)]
+    for i in range(n):
+        for j in range(n):
+            P[perm[i]][perm[j]] = D[i][j]
+    return P
+
+
+class _QueryRaised(Exception):
+    pass
+
+
+def _gd(tree, i, j, topo=False):
+    try:
+        return tree.get_distance(i, j, topo)
+    except Exception as e:  # noqa: BLE001
+        raise _QueryRaised(f"get_distance({i},{j},topological={topo}) raised {type(e).__name__}: {e}")
+
+
+def _dt(a, b, topo=False):
+    try:
+        return a.distance_to(b, topo)
+    except Exception as e:  # noqa: BLE001
+        raise _QueryRaised(f"distance_to(topological={topo}) raised {type(e).__name__}: {e}")
+
+
+def _lca(a, b):
+    try:
+        return a.lowest_common_ancestor(b)
+    except Exception as e:  # noqa: BLE001
+        raise _QueryRaised(f"lowest_common_ancestor raised {type(e).__name__}: {e}")
+
+
+def _input_checks(fn, algo, M, n, desc, big):
+    """The caller's matrix is never modified and a second call on the same array gives the same tree."""
+    import numpy as np
+    dtypes = [np.float32] if big else [np.float32, np.float64]
+    if all(float(x) == int(float(x)) and abs(float(x)) < 2**31 for row in M for x in row):
+        dtypes.append(np.int64 if not big else np.int32)
+    for dt in dtypes:
+        arr = np.array([[float(x) for x in row] for row in M], dtype=np.float64).reshape(n, n).astype(dt)
+        before = arr.copy()
+        try:
+            t1 = fn(arr)
+            same1 = arr.tobytes() == before.tobytes()
+            t2 = fn(arr)
+            same2 = arr.tobytes() == before.tobytes()
+        except Exception as e:  # noqa: BLE001
+            return [(f"C19/{algo}/rejects-valid-matrix", f"dtype {np.dtype(dt).name}: {type(e).__name__}: {e} for {desc}")]
+        if not (same1 and same2):
+            return [(f"C19/{algo}/input-matrix-modified",
+                     f"the caller's {np.dtype(dt).name} distance matrix was changed by {algo}: {desc}")]
+        if t1.to_newick() != t2.to_newick():
+            return [(f"C19/{algo}/second-call-differs",
+                     f"two calls on the same {np.dtype(dt).name} array give {t1.to_newick()[:120]} and {t2.to_newick()[:120]}: {desc}")]
+    return []
+
+
 def _oracle_matrix(case):
     import numpy as np
     from biotite.sequence import phylo
 
     algo = case["algo"]
-    M = [[(x if isinstance(x, float) else Fraction(x)) for x in row] for row in case["matrix"]]
+    big = "big" in case
+    raw = _big_matrix(case["big"]) if big else case["matrix"]
+    desc = ("big comb matrix " + str(case["big"])) if big else str(case["matrix"])[:600]
+    M = [[(x if isinstance(x, float) else Fraction(x)) for x in row] for row in raw]
     n = len(M)
     arr = np.array([[float(x) for x in row] for row in M], dtype=np.float64).reshape(n, n)
     finite = all(math.isfinite(float(x)) and float(x) < 3.4e38 for row in M for x in row)
@@ -665,10 +751,10 @@ def _oracle_matrix(case):
         tree = fn(arr)
     except Exception as e:  # noqa: BLE001
         if valid:
-            v.append((f"C19/{algo}/rejects-valid-matrix", f"{type(e).__name__}: {e} for {case['matrix']}"))
+            v.append((f"C19/{algo}/rejects-valid-matrix", f"{type(e).__name__}: {e} for {desc}"))
         return v
     if not finite:
-        return [(f"C19/{algo}/accepts-non-finite", f"no error for {case['matrix']}")]
+        return [(f"C19/{algo}/accepts-non-finite", f"no error for {desc}")]
     if not valid:
         return v            # the property says nothing about what is returned for invalid matrices
     exact = bool(case.get("exact"))
@@ -677,14 +763,15 @@ def _oracle_matrix(case):
     # (1) every input index is exactly one leaf
     idx = sorted(int(x) for x in tree.root.get_indices())
     if idx != list(range(n)) or len(tree) != n or any(tree.leaves[i] is None or tree.leaves[i].index != i for i in range(n)):
-        return [(f"C19/{algo}/leaves", f"leaf indices {idx} for n={n}: {case['matrix']}")]
+        return [(f"C19/{algo}/leaves", f"leaf indices {idx} for n={n}: {desc}")]
     dep = _depths(tree.root)
     # (2) distance queries equal explicit path sums
-    for i in range(n):
-        for j in range(n):
+    probe = range(n) if n <= 40 else sorted({0, 1, 2, 100, 254, 255, 256, 257, n // 2, n - 3, n - 2, n - 1} & set(range(n)))
+    for i in probe:
+        for j in probe:
             ps, cnt, _ = _path_sum(tree.leaves[i], tree.leaves[j])
-            got = Fraction(tree.get_distance(i, j))
-            if not _close(got, ps, tol) or tree.get_distance(i, j, True) != cnt:
+            got = Fraction(_gd(tree, i, j))
+            if not _close(got, ps, tol) or _gd(tree, i, j, True) != cnt:
                 return [(f"C19/{algo}/get_distance-vs-path-sum", f"({i},{j}): {float(got)} vs {float(ps)}")]
     if algo == "upgma":
         hroot = None
@@ -693,7 +780,7 @@ def _oracle_matrix(case):
                 if hroot is None:
                     hroot = d
                 if not _close(d, hroot, tol):
-                    v.append(("C19/upgma/not-ultrametric", f"leaf depths {float(d)} and {float(hroot)}: {case['matrix']}"))
+                    v.append(("C19/upgma/not-ultrametric", f"leaf depths {float(d)} and {float(hroot)}: {desc}"))
                     return v
         for node, d in dep.values():
             if node.is_leaf():
@@ -708,17 +795,20 @@ def _oracle_matrix(case):
             height = hroot - d
             if not _close(height, avg / 2, tol):
                 return [("C19/upgma/merge-height-vs-average-linkage",
-                         f"clusters {A}|{B}: height {float(height)} but average linkage/2 = {float(avg) / 2}: {case['matrix']}")]
+                         f"clusters {A if len(A) <= 12 else str(A[:12]) + '…(' + str(len(A)) + ')'}|{B if len(B) <= 12 else str(B[:12]) + '…(' + str(len(B)) + ')'}: height {float(height)} but average linkage/2 = {float(avg) / 2}: {desc}")]
             for c in ch:
                 if float(c.distance) < -tol:
                     return [("C19/upgma/negative-branch", f"{c.distance}")]
+    v += _input_checks(fn, algo, M, n, desc, big)
+    if v:
+        return v
     if case.get("additive") and algo == "nj":
         for i in range(n):
             for j in range(n):
-                got = Fraction(tree.get_distance(i, j))
+                got = Fraction(_gd(tree, i, j))
                 if not _close(got, M[i][j], tol):
                     return [("C19/nj/additive-distance-not-recovered",
-                             f"d({i},{j}) = {float(got)} but matrix has {float(M[i][j])}: {case['matrix']}")]
+                             f"d({i},{j}) = {float(got)} but matrix has {float(M[i][j])}: {desc}")]
     return v
 
 
@@ -730,7 +820,7 @@ def _struct(node, with_dist):
 
 def _pair_dists(tree):
     n = len(tree)
-    return [[Fraction(tree.get_distance(i, j)) for j in range(n)] for i in range(n)]
+    return [[Fraction(_gd(tree, i, j)) for j in range(n)] for i in range(n)]
 
 
 def _oracle_newick(case):
@@ -776,16 +866,16 @@ def _oracle_dist(case):
     tree = phylo.Tree(root)
     for i, j, topo in case["pairs"]:
         ps, cnt, _ = _path_sum(tree.leaves[i], tree.leaves[j])
-        got = tree.get_distance(i, j, bool(topo))
+        got = _gd(tree, i, j, bool(topo))
         if Fraction(got) != (cnt if topo else ps):
             return [("C19/distance/get_distance-vs-path-sum", f"leaves {i},{j} topo={topo}: {got} vs {float(cnt if topo else ps)}")]
     for p, q, topo in case["npairs"]:
         a, b = _at(root, p), _at(root, q)
         ps, cnt, lca = _path_sum(a, b)
-        if a.lowest_common_ancestor(b) is not lca or b.lowest_common_ancestor(a) is not lca:
+        if _lca(a, b) is not lca or _lca(b, a) is not lca:
             return [("C19/lca/not-lowest-common-ancestor", f"paths {p},{q}")]
-        got = a.distance_to(b, bool(topo))
-        if Fraction(got) != (cnt if topo else ps) or b.distance_to(a, bool(topo)) != got:
+        got = _dt(a, b, bool(topo))
+        if Fraction(got) != (cnt if topo else ps) or _dt(b, a, bool(topo)) != got:
             return [("C19/distance/distance_to-vs-path-sum", f"paths {p},{q} topo={topo}: {got} vs {float(cnt if topo else ps)}")]
     return []
 
@@ -809,7 +899,7 @@ def _oracle_binary(case, tol=0):
     n = len(tree)
     for i in range(n):
         for j in range(n):
-            x, y = Fraction(b.get_distance(i, j)), Fraction(tree.get_distance(i, j))
+            x, y = Fraction(_gd(b, i, j)), Fraction(_gd(tree, i, j))
             if not _close(x, y, tol * max(1.0, abs(float(y)))):
                 return [("C19/as_binary/distance-changed", f"d({i},{j}) {float(y)} -> {float(x)}: {tree.to_newick()} -> {b.to_newick()}")]
     if _dump(tree.root) != before:
@@ -844,8 +934,16 @@ def _oracle_binnode(case):
 
 
 def oracle(case):
+    """An exception from a distance / LCA query on a valid tree is itself a violation."""
+    try:
+        return _oracle(case)
+    except _QueryRaised as e:
+        return [("C19/lca/raises", str(e))]
+
+
+def _oracle(case):
     k = case.get("kind", "")
-    if "matrix" in case:
+    if "matrix" in case or "big" in case:
         return _oracle_matrix(case)
     if k in ("newick", "newick_float", "label_illegal", "label_ws", "label_empty", "label_short"):
         return _oracle_newick(case)
@@ -868,6 +966,8 @@ def nontrivial(case, impl_out):
         return True
     if "matrix" in case:
         return len(case["matrix"]) >= 3
+    if "big" in case:
+        return True
     if "tree" in case:
         return len(_leaves(case["tree"])) >= 3
     return bool(case.get("ops"))
@@ -884,7 +984,7 @@ def distribution(cases_, impl_outs):
         for line in o or []:
             k = line.split(" ")[0]
             outcomes[k] = outcomes.get(k, 0) + 1
-        n = len(c["matrix"]) if "matrix" in c else (len(_leaves(c["tree"])) if "tree" in c else None)
+        n = len(c["matrix"]) if "matrix" in c else (c["big"]["m"] + 1 if "big" in c else (len(_leaves(c["tree"])) if "tree" in c else None))
         if n is not None:
             b = str(n) if n <= 4 else "5-8" if n <= 8 else "9+"
             sizes[b] = sizes.get(b, 0) + 1
